@@ -83,6 +83,11 @@ def _apply_op(h, obj, op, kind, n, mkT, k):
         return obj.flatten_to_unit()
     if op == 'index':
         return obj[0] if len(obj.shape) else obj
+    if op == 'index_units':
+        # an index that reaches into the unit axes: reverse the orientation of every unit
+        if kind == 'hyp.TangentVector':
+            return obj
+        return obj[..., ::-1, :]
     if op == 'setitem':
         if not len(obj.shape):
             return obj
